@@ -32,6 +32,9 @@ def one(s):
         v=[l for l in r.stdout.split('\n') if l.startswith('VIOLATION')]
         obl=[re.sub(r'.*obligation=','',l).replace(' no-failing-input-found','') for l in v]
         json.dump({"seed":s,"property":prop,"patch":os.path.basename(applied),"check_exit":r.returncode,"violations":len(v),"obligations":obl[:12]},open(d+'/detected.json','w'),indent=1)
+        meta['detected_by']=('./check %s quick: exit %d, %d violation line(s), first: %s'%(prop,r.returncode,len(v),obl[0]) if v else './check %s quick: exit %d, no violation reported'%(prop,r.returncode))
+        meta['apply']='python3 /verif/tools/run_seeds.py %s   (scratch copy; or: git -C /repo apply <patch> ; ./check %s quick ; git -C /repo apply -R <patch>)'%(s,prop)
+        json.dump(meta,open(d+'/meta.json','w'),indent=1)
         print(s,prop,'exit',r.returncode,'violations',len(v),obl[:2],flush=True)
     finally:
         shutil.rmtree(t,ignore_errors=True)
